@@ -227,17 +227,24 @@ bool File::readByteString(ByteString& value)
 		return false;
 	}
 
-	// Read the byte string from the file
-	value.resize(len);
+	// Read the byte string from the file. The length comes from the file and may
+	// be garbage (corrupt or truncated file): read in pieces so that never much
+	// more memory is requested than the file can deliver
+	const unsigned long chunkSize = 65536;
 
-	if (len == 0)
-	{
-		return true;
-	}
+	value.resize(0);
 
-	if (fread(&value[0], 1, len, stream) != len)
+	while (value.size() < len)
 	{
-		return false;
+		size_t done = value.size();
+		size_t chunk = (len - done < chunkSize) ? (size_t)(len - done) : (size_t)chunkSize;
+
+		value.resize(done + chunk);
+
+		if (fread(&value[done], 1, chunk, stream) != chunk)
+		{
+			return false;
+		}
 	}
 
 	return true;
